@@ -8,7 +8,12 @@
 (*         name is mapped, not compared), "func", "method", "nested", "wrapper" (the inner      *)
 (*         function a user decorator returns; wraps = name of the decorated function),         *)
 (*         "lambda", "classbody", "expr" (a trigger / active / filter expression: no frame in   *)
-(*         Python; pyscript's frame for it is dropped from the recording)                      *)
+(*         Python; pyscript's frame for it is dropped from the recording), "waitexpr" (an       *)
+(*         expression evaluated on behalf of a function that waits in task.wait_until: its      *)
+(*         exception is delivered to the waiting function at the wait statement, which is a     *)
+(*         "call" of this unit.  Python's counterpart is eval(compile(text, ..)): one frame     *)
+(*         whose file and name are pseudo names - mapped, not compared - and whose line is the  *)
+(*         line within the expression text)                                                    *)
 (*   body  sequence of statements st:                                                         *)
 (*         [k |-> "plain", line]                executes normally                             *)
 (*         [k |-> "fault", line, exc]           raises exc; optional field cause (a fresh       *)
@@ -20,7 +25,9 @@
 (*                                              h = "reraise" (bare raise) | "none" (raise exc  *)
 (*                                              from None: nothing of the caught exception is  *)
 (*                                              printed) | "from" (raise exc                   *)
-(*                                              from e) | "ctx" (raise exc)                     *)
+(*                                              from e) | "ctx" (raise exc) | "swallow" (the    *)
+(*                                              script handles the exception itself: nothing   *)
+(*                                              is raised, execution continues after the try)  *)
 (*   line  the line Python reports for the statement (generator's belief, checked against      *)
 (*         CPython itself)                                                                    *)
 (* Exec is Python's semantics of tracebacks: a frame per active unit from the entry down to    *)
@@ -29,7 +36,9 @@
 (* [rel, exc, frames] with rel = "cause" | "context" (how it relates to the next) | "final".   *)
 EXTENDS Naturals, Sequences, FiniteSets
 
-Frame(u, line) == [file |-> u.file, name |-> u.name, line |-> line, kind |-> u.kind, wraps |-> u.wraps]
+Wild == "*"
+Frame(u, line) == IF u.kind = "waitexpr" THEN [file |-> Wild, name |-> Wild, line |-> line, kind |-> u.kind, wraps |-> u.wraps]
+                  ELSE [file |-> u.file, name |-> u.name, line |-> line, kind |-> u.kind, wraps |-> u.wraps]
 Ok == [k |-> "ok"]
 Raised(e, tb, chain) == [k |-> "exc", exc |-> e, tb |-> tb, chain |-> chain]
 
@@ -50,6 +59,7 @@ ExecBody(P, u, body, i) ==
       [] st.k = "try" ->
            LET r == ExecBody(P, u, st.body, 1) IN
            IF r.k = "ok" THEN ExecBody(P, u, body, i + 1)
+           ELSE IF st.h = "swallow" THEN ExecBody(P, u, body, i + 1)                     \* handled by the script: nothing escapes
            ELSE IF st.h = "reraise" THEN r
            ELSE IF st.h = "none" THEN Raised(st.exc, <<Frame(u, st.hline)>>, <<>>)      \* raise exc from None: __suppress_context__
            ELSE Raised(st.exc, <<Frame(u, st.hline)>>,
@@ -59,6 +69,8 @@ ExecBody(P, u, body, i) ==
 Printed(P, entry) ==
   LET r == ExecUnit(P, entry) IN
   IF r.k = "ok" THEN <<>> ELSE r.chain \o <<[rel |-> "final", exc |-> r.exc, frames |-> r.tb]>>
+\* does the fault leave user code (FALSE: the script handled it itself, or nothing faulted)
+Escapes(P, entry) == ExecUnit(P, entry).k # "ok"
 
 (* ---- named deviations of the code (flags); {} = the property statement ------------------- *)
 (*  "wrapper-renamed"   the frame of a decorator wrapper carries the decorated function's name *)
@@ -79,7 +91,6 @@ Printed(P, entry) ==
 (*  "stopiteration"     StopIteration leaving a function is replaced by RuntimeError           *)
 (*                      ("coroutine raised StopIteration") with the original as its cause      *)
 FrameFlags == <<"wrapper-renamed", "same-name-merge", "classbody-inline", "lambda-name", "chained-ctx-name", "import-frame", "stopiteration">>
-Wild == "*"
 
 RECURSIVE Rename(_, _, _, _)
 \* frames with deviant names / files, left to right (prev = the already renamed previous frame)
@@ -134,12 +145,21 @@ ReportEq(E, O) == Len(E) = Len(O) /\ \A i \in 1..Len(E) : PartEq(E[i], O[i])
 
 (* Part 2 - containment.  Entry points of user code and the layer that must catch an           *)
 (* exception raised there.  Layers, innermost first:                                           *)
+(*   "user"     a handler in the script's own code on the way (try / except that does not       *)
+(*              re-raise): the script handled its own error - nothing is logged, the run goes   *)
+(*              on (Escapes = FALSE)                                                            *)
+(*   "deliver"  wait expressions only: the wait machinery hands the exception to the waiting    *)
+(*              function (raises it at the wait statement); it is not a handler: logs nothing   *)
+(*   "waiter"   wait expressions only: a handler of the waiting function around the wait        *)
+(*              statement (user code again)                                                     *)
 (*   "entry"    the wrapper pyscript puts around that entry point: logs on the script's logger *)
 (*   "runcoro"  Function.run_coro's catch-all: logs one line on the integration's own logger   *)
 (*   "loop"     the trigger's watch loop: logs on the integration's logger and ENDS the loop   *)
 (*   "ha"       nothing caught it: the exception reaches Home Assistant / the event loop       *)
 Entries == {"load", "import-load", "trigger-func", "trigger-func-state", "service-func", "trigger-expr", "filter-expr",
-            "active-expr", "done-callback", "created-task"}
+            "active-expr", "done-callback", "created-task", "wait-expr", "wait-filter-expr"}
+\* expressions evaluated on behalf of a function that waits (task.wait_until): their exception is delivered to the waiter
+WaitEntries == {"wait-expr", "wait-filter-expr"}
 Subsystems == {"dm", "legacy"}
 \* named deviation: in the dm subsystem nothing wraps the call of a trigger function
 ContainFlags == <<"dm-trigger-func-uncaught">>
